@@ -58,6 +58,15 @@ def run (inp obs : List String) : Verdict :=
     else []
   let fresh := field obs "FRESH"
   let s3 := if r = "ok" && fresh ≠ "ok:same" then ["fresh-identical"] else []
+  -- round 3: files of a loaded source arrive; an optional file that exists holds something; the tree reproduces itself
+  let kf := if r = "ok" then keepFailures f pre post t (splitPath (field obs "SRC")) (field obs "KEEP") else []
+  let s5 := if kf.isEmpty then [] else ["loaded-store-files-saved:" ++ ",".intercalate kf]
+  let ef := field obs "EMPTYFILES"
+  let s6 := if r = "ok" && ef ≠ "" && ef ≠ "-" then
+      ["optional-file-empty-content:" ++ ",".intercalate (dedup ((ef.splitOn ",").map fun p => ((p.splitOn "/").getLast?).getD p))]
+    else []
+  let rs := field obs "RESAVE"
+  let s7 := if r = "ok" && safePaths f && rs ≠ "" && rs ≠ "same" then ["resave-reproduces:" ++ rs] else []
   let tags :=
     ["pre" ++ field inp "pre", "res-" ++ obsClass r, "craft" ++ field inp "craft"] ++
     (if fieldNat inp "load" = 1 then ["loaded"] else ["api-built"]) ++
@@ -65,7 +74,7 @@ def run (inp obs : List String) : Verdict :=
     (if safePaths f then ["safe"] else ["unsafe"]) ++
     (if field inp "pre" ≠ "0" || field inp "craft" ≠ "0" then ["nt"] else [])
   { agree := okClass && okTree,
-    spec := s0 ++ s1 ++ s2 ++ s3,
+    spec := s0 ++ s1 ++ s2 ++ s3 ++ s5 ++ s6 ++ s7,
     tags := tags,
     model := if okClass && okTree then resClass mr else
       s!"model-res={resClass mr} impl-res={obsClass r} tree: {if okTree then "same" else firstDiff mList oListM}" }
